@@ -5,8 +5,6 @@ open SamVerif.C03
 #print axioms compile_gate_errors_block
 #print axioms fold_total
 #print axioms trip_total
-#print axioms merge_total_counterexample
-#print axioms merge_total_partial
 #print axioms ts_literal_closed
 #print axioms ts_literal_closed_isSome
 #print axioms lower_correct
@@ -19,3 +17,9 @@ open SamVerif.C03
 #print axioms bindings_complete
 #print axioms iflet_correct
 #print axioms let_destructure_total
+#print axioms destructure_never_traps
+#print axioms variant_fits_erased_type
+#print axioms erasure_old_counterexample
+#print axioms permit_payload_pointer
+#print axioms binding_temps_fresh
+#print axioms bindings_correct_on_temps
